@@ -147,11 +147,14 @@ def run(ctx):
         "LAPACK eigh frames are oracle inputs (their contract is C03's per-run check)",
         "non-shear task values are taken from the implementation in this tie (they are C01/C02's subject)",
     ]
-    ctx.partial += ["axis-relabelling covariance is measured on the implementation (six permutations), not proved",
-                    "the abstract scheduler theorems are instantiated with allclose only through the per-run checks"]
+    ctx.partial += ["axis-relabelling covariance is proved at solver level (axis_relabelling, axis_relabelling_frames: 6 "
+                    "permutations x 15 shear keys, all tensors); that the whole work list commutes with a relabelling "
+                    "(task creation order, LAPACK frames of the relabelled strain) is measured on the implementation",
+                    "the abstract scheduler theorems are instantiated with the code's exact task identity (array_equal) "
+                    "through the per-run checks of the concrete task model"]
     voigt_tie(ctx, rd)
     shutil.copy(PROPS / "Prop_C04.v", rd / "Prop_C04.v")
-    ctx.prove(rd / "Prop_C04.v", "Prop_C04.v (scheduler, rank and isotropic-limit theorems)", "theorem-file")
+    ctx.prove(rd / "Prop_C04.v", "Prop_C04.v (scheduler, rank, isotropic-limit and axis-relabelling theorems)", "theorem-file")
 
     import cij.core.tasks as TK
     import cij.core.phonon_contribution.shear as S
@@ -174,7 +177,7 @@ def run(ctx):
         eigs[k] = (numpy.diag(o.fictitious_strain_rotated).tolist(), numpy.array(o.transformation_matrix).tolist())
     eig_txt = "[" + ";\n ".join("(%s, (%s, %s))" % (klit(k), flist(l), flist2(T)) for k, (l, T) in eigs.items()) + "]"
 
-    n = 40 if ctx.tier == "quick" else 240
+    n = 40 if ctx.tier == "quick" else 1200
     cases, meta = [], []
     for i in range(n):
         c = H.make_case(rng, nq=rng.choice([1, 2]), na=1, nv=rng.choice([1, 2]),
@@ -264,7 +267,7 @@ def run(ctx):
     ctx.sample(meta[-1] if meta else {})
 
     # isotropic limit and axis relabelling on the implementation
-    niso = 3 if ctx.tier == "quick" else 12
+    niso = 3 if ctx.tier == "quick" else 40
     if any(f["key"] == "tasklist-hangs" for f in ctx.failures):
         niso = 0
     for i in range(niso):
@@ -329,7 +332,7 @@ def run(ctx):
     # (merged tasks are where a missing edge / wrong order can hide; each run is ~50 ms)
     c = H.make_case(rng, nq=1, na=1, nv=1, temps=[0.0, 700.0])
     calc = H.duck_calculator(c)
-    nshuf = 6 if ctx.tier == "quick" else 40
+    nshuf = 6 if ctx.tier == "quick" else 150
     for strain in ([[1.0, 1.0, 1.0]], [[2.0, 1.0, 1.0]], [[1.0, 2.0, 2.0]], [[1.0, 2.0, 1.0]], [[0.3, 0.3, 0.4]]):
         orders = [list(ALL_KEYS), list(reversed(ALL_KEYS))]
         for _ in range(nshuf):
